@@ -12,6 +12,7 @@ import (
 
 	"golang.org/x/net/http2/hpack"
 	"golang.org/x/net/internal/zzverif/vx"
+	"golang.org/x/net/quic"
 )
 
 // C33 — QPACK field sections round-trip and the decoder rejects bad input
@@ -444,56 +445,166 @@ type c33Real struct {
 
 var c33Sentinel = []byte{0xa5, 0x5a, 0xc3, 0x3c, 0x96, 0x69, 0x0f, 0xf0}
 
-// c33RunReal feeds payload, framed as one HEADERS frame followed by the
-// sentinel and FIN, to the real decoder inside a fresh bubble.
-func c33RunReal(c *vx.Ctx, payload []byte) c33Real {
-	var res c33Real
-	ok := c.T.Run("case", func(t *testing.T) {
+// c33RunBatch feeds every payload, each framed as one HEADERS frame followed
+// by the sentinel and FIN on its own fresh QUIC stream, to the real decoder.
+// All streams of a batch share one in-memory QUIC connection inside one
+// synctest bubble (the handshake dominates the cost of a bubble); nothing else
+// is shared between the cases of a batch: a separate *stream, a separate
+// qpackDecoder value.
+func c33RunBatch(c *vx.Ctx, payloads [][]byte) []c33Real {
+	out := make([]c33Real, len(payloads))
+	done := 0
+	batchErr := ""
+	ok := c.T.Run("bubble", func(t *testing.T) {
 		synctest.Test(t, func(t *testing.T) {
-			st1, st2 := newStreamPair(t)
-			q2 := st2.stream
-			st1.writeVarint(int64(frameTypeHeaders))
-			st1.writeVarint(int64(len(payload)))
-			st1.Write(payload)
-			st1.Write(c33Sentinel)
-			if err := st1.Flush(); err != nil {
-				res.harnessEr = "flush: " + err.Error()
+			config := &quic.Config{TLSConfig: testTLSConfig}
+			e1, e2 := newQUICEndpointPair(t)
+			c1, err := e1.Dial(t.Context(), "udp", e2.LocalAddr().String(), config)
+			if err != nil {
+				batchErr = "dial: " + err.Error()
 				return
 			}
-			st1.stream.CloseWrite()
-			ft, err := st2.readFrameHeader()
-			if err != nil || ft != frameTypeHeaders || st2.lim != int64(len(payload)) {
-				res.harnessEr = fmt.Sprintf("readFrameHeader = %v, %v, lim %d", ft, err, st2.lim)
+			c2, err := e2.Accept(t.Context())
+			if err != nil {
+				batchErr = "accept: " + err.Error()
 				return
 			}
-			func() {
-				defer func() {
-					if r := recover(); r != nil {
-						res.panicked = fmt.Sprintf("%v\n%s", r, c33Stack())
+			for i, payload := range payloads {
+				res := &out[i]
+				q1, err := c1.NewSendOnlyStream(t.Context())
+				if err != nil {
+					batchErr = "NewSendOnlyStream: " + err.Error()
+					return
+				}
+				st1 := newStream(q1)
+				st1.writeVarint(int64(frameTypeHeaders))
+				st1.writeVarint(int64(len(payload)))
+				st1.Write(payload)
+				st1.Write(c33Sentinel)
+				if err := st1.Flush(); err != nil {
+					batchErr = "flush: " + err.Error()
+					return
+				}
+				q1.CloseWrite()
+				q2, err := c2.AcceptStream(t.Context())
+				if err != nil {
+					batchErr = "AcceptStream: " + err.Error()
+					return
+				}
+				if q2.ID() != q1.ID() {
+					batchErr = fmt.Sprintf("accepted stream %d, wrote stream %d", q2.ID(), q1.ID())
+					return
+				}
+				st2 := newStream(q2)
+				ft, err := st2.readFrameHeader()
+				if err != nil || ft != frameTypeHeaders || st2.lim != int64(len(payload)) {
+					batchErr = fmt.Sprintf("readFrameHeader = %v, %v, lim %d", ft, err, st2.lim)
+					return
+				}
+				func() {
+					defer func() {
+						if r := recover(); r != nil {
+							res.panicked = fmt.Sprintf("%v\n%s", r, c33Stack())
+						}
+					}()
+					var dec qpackDecoder
+					res.err = dec.decode(st2, func(it indexType, name, value string) error {
+						res.lines = append(res.lines, c33Line{it == neverIndex, name, value})
+						if it != neverIndex && it != mayIndex {
+							res.lines[len(res.lines)-1].Name += fmt.Sprintf("<itype=%#x>", byte(it))
+						}
+						return nil
+					})
+					if res.err == nil {
+						res.endErr = st2.endFrame()
 					}
 				}()
-				var dec qpackDecoder
-				res.err = dec.decode(st2, func(it indexType, name, value string) error {
-					res.lines = append(res.lines, c33Line{it == neverIndex, name, value})
-					if it != neverIndex && it != mayIndex {
-						res.lines[len(res.lines)-1].Name += fmt.Sprintf("<itype=%#x>", byte(it))
-					}
-					return nil
-				})
-				if res.err == nil {
-					res.endErr = st2.endFrame()
+				res.rest, res.restErr = io.ReadAll(q2)
+				if res.restErr != nil {
+					batchErr = "draining the stream: " + res.restErr.Error()
+					return
 				}
-			}()
-			res.rest, res.restErr = io.ReadAll(q2)
-			if res.restErr != nil {
-				res.harnessEr = "draining the stream: " + res.restErr.Error()
+				q2.CloseRead()
+				done++
 			}
 		})
 	})
-	if !ok && res.harnessEr == "" {
-		res.harnessEr = "package test helper failed inside the bubble (see test log)"
+	if batchErr == "" && (!ok || done != len(payloads)) {
+		batchErr = "package test helper failed inside the bubble (see test log)"
 	}
-	return res
+	if batchErr != "" {
+		for i := done; i < len(out); i++ {
+			out[i].harnessEr = batchErr
+		}
+	}
+	return out
+}
+
+// c33Prefetch makes the enumeration cheap without changing what a case is:
+// it wraps a case generator so that, before a block of cases is handed to
+// vx.Enumerate, the real decoder has been run on all of the block's cases that
+// belong to this shard in ONE bubble (c33RunBatch). Results are kept in a map
+// keyed by the payload and consumed (deleted) by the first check of that
+// payload; vx's confirmation re-runs and --replay therefore always execute the
+// case alone in a fresh bubble, so a failure is only ever reported if it
+// reproduces in isolation.
+type c33Prefetch struct {
+	c     *vx.Ctx
+	cache map[string]c33Real
+}
+
+const c33Block = 96
+
+func c33Prefetched[T any](pf *c33Prefetch, payloadOf func(T) []byte, gen func(yield func(T) bool)) func(yield func(T) bool) {
+	return func(yield func(T) bool) {
+		var buf []T
+		var mine [][]byte
+		var idx int64
+		flush := func() bool {
+			if len(mine) > 0 && !pf.c.Expired() {
+				rs := c33RunBatch(pf.c, mine)
+				pf.cache = make(map[string]c33Real, len(mine))
+				for i, p := range mine {
+					pf.cache[string(p)] = rs[i]
+				}
+			}
+			for _, x := range buf {
+				if !yield(x) {
+					return false
+				}
+			}
+			buf, mine = buf[:0], mine[:0]
+			return true
+		}
+		stopped := false
+		gen(func(x T) bool {
+			buf = append(buf, x)
+			if pf.c.Mine(idx) {
+				mine = append(mine, payloadOf(x))
+			}
+			idx++
+			if len(mine) >= c33Block {
+				if !flush() {
+					stopped = true
+					return false
+				}
+			}
+			return true
+		})
+		if !stopped {
+			flush()
+		}
+	}
+}
+
+// real returns the real decoder's behaviour on payload: the prefetched result
+// the first time, a solo run otherwise.
+func (pf *c33Prefetch) real(payload []byte) c33Real {
+	if r, ok := pf.cache[string(payload)]; ok {
+		delete(pf.cache, string(payload))
+		return r
+	}
+	return c33RunBatch(pf.c, [][]byte{payload})[0]
 }
 
 func c33Stack() string {
@@ -651,7 +762,19 @@ func TestVerif_C33(t *testing.T) {
 
 		// ---- round trip
 		maxFields := vx.Pick(c, 3, 4)
-		vx.Enumerate(c, "roundtrip", vx.Opts{Serial: true}, func(yield func(c33RTCase) bool) {
+		pf := &c33Prefetch{c: c}
+		encodeCase := func(x c33RTCase) []byte {
+			return enc.encode(func(f func(itype indexType, name, value string)) {
+				for i, fi := range x.Fields {
+					it := indexType(mayIndex)
+					if x.Never[i] {
+						it = neverIndex
+					}
+					f(it, c33Alphabet[fi].Name, c33Alphabet[fi].Value)
+				}
+			})
+		}
+		vx.Enumerate(c, "roundtrip", vx.Opts{Serial: true}, c33Prefetched(pf, encodeCase, func(yield func(c33RTCase) bool) {
 			type sym struct {
 				f int
 				n bool
@@ -667,7 +790,7 @@ func TestVerif_C33(t *testing.T) {
 				}
 				return yield(cs)
 			})
-		}, func(w *vx.W, x c33RTCase) {
+		}), func(w *vx.W, x c33RTCase) {
 			// Expected lines, from the property statement.
 			var want []c33Line
 			wantReject := ""
@@ -695,15 +818,7 @@ func TestVerif_C33(t *testing.T) {
 				}
 				want = append(want, c33Line{x.Never[i], name, f.Value})
 			}
-			payload := enc.encode(func(f func(itype indexType, name, value string)) {
-				for i, fi := range x.Fields {
-					it := indexType(mayIndex)
-					if x.Never[i] {
-						it = neverIndex
-					}
-					f(it, c33Alphabet[fi].Name, c33Alphabet[fi].Value)
-				}
-			})
+			payload := encodeCase(x)
 			exp := c33RefResult{verdict: c33Accept, lines: want}
 			if wantReject != "" {
 				exp = c33RefResult{verdict: c33Reject, reason: wantReject}
@@ -715,7 +830,7 @@ func TestVerif_C33(t *testing.T) {
 					c33DescFields(x), c33Hex(payload), rr.verdict, rr.reason, rr.lines, exp.verdict, exp.reason, want)
 				return
 			}
-			got := c33RunReal(c, payload)
+			got := pf.real(payload)
 			c33Check(w, "roundtrip", payload, exp, got)
 		})
 
@@ -723,12 +838,34 @@ func TestVerif_C33(t *testing.T) {
 		third := []byte{0x00, 0x01, 0x02, 0x03, 0x07, 0x08, 0x0f, 0x10, 0x17, 0x1f, 0x20, 0x21, 0x27, 0x28, 0x2f, 0x30, 0x37, 0x3f,
 			0x40, 0x4f, 0x50, 0x51, 0x5f, 0x61, 0x62, 0x70, 0x7e, 0x7f, 0x80, 0x81, 0x82, 0x83, 0x8f, 0xa8, 0xbf, 0xc0, 0xc1, 0xd1, 0xe2, 0xe3, 0xfe, 0xff,
 			0x3a, 0x41, 0x5a, 0x0a, 0xf8, 0xfc}
-		vx.Enumerate(c, "decode", vx.Opts{Serial: true}, func(yield func(c33Bytes) bool) {
+		bytesOf := func(x c33Bytes) []byte {
+			b, err := hex.DecodeString(x.Hex)
+			if err != nil {
+				c.T.Fatalf("C33: bad case hex %q", x.Hex)
+			}
+			return b
+		}
+		vx.Enumerate(c, "decode", vx.Opts{Serial: true}, c33Prefetched(pf, bytesOf, func(yield func(c33Bytes) bool) {
+			// Cases are distinct: the constructed / swept inputs are remembered
+			// and skipped when the exhaustive loops reach them again.
+			seen := map[string]bool{}
+			exhaustive := false
 			emit := func(b []byte, want, desc string) bool {
-				return yield(c33Bytes{Hex: hex.EncodeToString(b), Want: want, Desc: desc})
+				h := hex.EncodeToString(b)
+				if seen[h] {
+					return true
+				}
+				if !exhaustive {
+					seen[h] = true
+				}
+				return yield(c33Bytes{Hex: h, Want: want, Desc: desc})
 			}
 			// constructed cases first (they are the cheapest to read in a report)
 			for _, k := range c33Constructed() {
+				if seen[k.Hex] {
+					continue
+				}
+				seen[k.Hex] = true
 				if !yield(k) {
 					return
 				}
@@ -767,6 +904,7 @@ func TestVerif_C33(t *testing.T) {
 				}
 			}
 			// all short strings after the zero prefix
+			exhaustive = true
 			for a := 0; a < 256; a++ {
 				if !emit([]byte{0, 0, byte(a)}, "", "") {
 					return
@@ -785,11 +923,8 @@ func TestVerif_C33(t *testing.T) {
 					}
 				}
 			}
-		}, func(w *vx.W, x c33Bytes) {
-			payload, err := hex.DecodeString(x.Hex)
-			if err != nil {
-				c.T.Fatalf("C33: bad case hex %q", x.Hex)
-			}
+		}), func(w *vx.W, x c33Bytes) {
+			payload := bytesOf(x)
 			rr := ref.decode(payload)
 			if x.Want != "" {
 				wantV := map[string]c33Verdict{"accept": c33Accept, "reject": c33Reject}[x.Want]
@@ -797,7 +932,7 @@ func TestVerif_C33(t *testing.T) {
 					c.T.Fatalf("C33 harness self-check: reference decoder gives verdict %d (%s) for constructed case %q (%s) that was built to be %s", rr.verdict, rr.reason, x.Desc, x.Hex, x.Want)
 				}
 			}
-			got := c33RunReal(c, payload)
+			got := pf.real(payload)
 			c33Check(w, "decode", payload, rr, got)
 		})
 	})
